@@ -849,4 +849,315 @@ theorem cdOuter_done_order_independent (isEnd : Nat → Bool) (thr : Nat) (es : 
     omega
   exact ⟨key o1 o2 hp, key o2 o1 hp.symm⟩
 
+
+/-! ### what a genuine-signer verdict says about the signatures that exist (C34, partial safety) -/
+
+theorem genuineSig_elim (i p : Nat) (fe : Bool) (s : Sig) (h : genuineSig i p fe s = true) :
+    ∃ v, s = .valid i (.block p v fe) := by
+  cases s with
+  | junk k => simp [genuineSig] at h
+  | valid k hh =>
+    cases hh with
+    | other n => simp [genuineSig, isBlockHashOf] at h
+    | block p' v fe' =>
+      simp [genuineSig, isBlockHashOf] at h
+      obtain ⟨rfl, rfl, rfl⟩ := h
+      exact ⟨v, rfl⟩
+
+theorem lookup_mem {β} (k : Nat) (m : List (Nat × β)) (v : β) (h : lookup k m = some v) : (k, v) ∈ m := by
+  induction m with
+  | nil => simp [lookup] at h
+  | cons hd tl ih =>
+    obtain ⟨k', v'⟩ := hd
+    unfold lookup at h
+    by_cases hk : k' = k
+    · simp [hk] at h; subst h; subst hk; simp
+    · simp [hk] at h; exact List.mem_cons_of_mem _ (ih h)
+
+/-- a peer with a genuine signature for `p` in the pool: some signature of that peer over some version of a block of `p`
+occurs in the pool -/
+theorem genuineFor_occurs (N : Nat) (c : Cand) (p i : Nat) (h : genuineFor N c p i = true) :
+    ∃ v fe, sigOccurs c (.valid i (.block p v fe)) = true := by
+  unfold genuineFor at h
+  simp only [Bool.and_eq_true, Bool.or_eq_true, decide_eq_true_eq] at h
+  obtain ⟨_, h⟩ := h
+  rcases h with (h | h) | h
+  · cases hl : lookup i c.endorseSigs with
+    | none => simp [hl] at h
+    | some sigs =>
+      simp only [hl] at h
+      obtain ⟨e, he, hg⟩ := List.any_eq_true.mp h
+      simp only [Bool.and_eq_true, beq_iff_eq] at hg
+      obtain ⟨v, hv⟩ := genuineSig_elim _ _ _ _ hg.2
+      refine ⟨v, e.forEmpty, ?_⟩
+      rw [← hv]
+      unfold sigOccurs
+      have : (c.endorseSigs.any fun x => x.2.any fun e' => e'.sig == e.sig) = true := by
+        refine List.any_eq_true.mpr ⟨(i, sigs), lookup_mem _ _ _ hl, List.any_eq_true.mpr ⟨e, he, by simp⟩⟩
+      simp only [this, Bool.true_or]
+  · obtain ⟨m, hm, hg⟩ := List.any_eq_true.mp h
+    simp only [Bool.and_eq_true, Bool.or_eq_true, beq_iff_eq] at hg
+    obtain ⟨_, hg⟩ := hg
+    have mk : ∀ s, (m.sig == s || m.psig == s || m.endorsers.any (fun e => e.2 == s)) = true → sigOccurs c s = true := by
+      intro s hs
+      unfold sigOccurs
+      have : (c.commitMsgs.any fun m => m.sig == s || m.psig == s || m.endorsers.any (fun e => e.2 == s)) = true :=
+        List.any_eq_true.mpr ⟨m, hm, hs⟩
+      simp only [this, Bool.true_or, Bool.or_true]
+    rcases hg with (hg | hg) | hg
+    · obtain ⟨v, hv⟩ := genuineSig_elim _ _ _ _ hg.2
+      exact ⟨v, m.forEmpty, mk _ (by simp [hv])⟩
+    · obtain ⟨e, he, hge⟩ := List.any_eq_true.mp hg
+      simp only [Bool.and_eq_true, beq_iff_eq] at hge
+      obtain ⟨v, hv⟩ := genuineSig_elim _ _ _ _ hge.2
+      refine ⟨v, m.forEmpty, mk _ ?_⟩
+      have : (m.endorsers.any fun e => e.2 == Sig.valid i (.block p v m.forEmpty)) = true :=
+        List.any_eq_true.mpr ⟨e, he, by simp [hv]⟩
+      simp [this]
+    · obtain ⟨hip, hg2⟩ := hg
+      subst hip
+      obtain ⟨v, hv⟩ := genuineSig_elim _ _ _ _ hg2
+      exact ⟨v, m.forEmpty, mk _ (by simp [hv])⟩
+  · obtain ⟨hip, h⟩ := h
+    simp only [beq_iff_eq] at hip
+    subst hip
+    obtain ⟨pr, hpr, hg⟩ := List.any_eq_true.mp h
+    simp only [Bool.and_eq_true, beq_iff_eq] at hg
+    obtain ⟨v, hv⟩ := genuineSig_elim _ _ _ _ hg.2
+    refine ⟨v, false, ?_⟩
+    unfold sigOccurs
+    have : (c.proposals.any fun pr => pr.sig == Sig.valid i (.block i v false)) = true :=
+      List.any_eq_true.mpr ⟨pr, hpr, by simp [hv]⟩
+    simp only [this, Bool.or_true]
+
+/-- every block signature in the pool is over the version of that proposer's proposal which the pool stores -/
+def VersionBound (c : Cand) : Prop :=
+  ∀ k p v fe, sigOccurs c (.valid k (.block p v fe)) = true → storedVer c p = some v
+
+
+/-! ### the `.sound` intake establishes `VersionBound` -/
+
+/-- `s`, if it is a block signature, is over the stored version of that proposer's proposal -/
+def SV (ps : List Proposal) (s : Sig) : Prop :=
+  ∀ k p v fe, s = .valid k (.block p v fe) → (ps.find? (·.proposer == p)).map (·.ver) = some v
+
+structure VBI (c : Cand) : Prop where
+  es : ∀ x ∈ c.endorseSigs, ∀ e ∈ x.2, SV c.proposals e.sig
+  cm : ∀ m ∈ c.commitMsgs, SV c.proposals m.sig ∧ SV c.proposals m.psig ∧ ∀ e ∈ m.endorsers, SV c.proposals e.2
+  pr : ∀ pr ∈ c.proposals, SV c.proposals pr.sig
+
+theorem VBI.versionBound {c : Cand} (h : VBI c) : VersionBound c := by
+  intro k p v fe ho
+  unfold sigOccurs at ho
+  simp only [Bool.or_eq_true] at ho
+  unfold storedVer
+  rcases ho with (ho | ho) | ho
+  · obtain ⟨x, hx, hx2⟩ := List.any_eq_true.mp ho
+    obtain ⟨e, he, hes⟩ := List.any_eq_true.mp hx2
+    exact h.es x hx e he k p v fe (by simpa using hes)
+  · obtain ⟨m, hm, hm2⟩ := List.any_eq_true.mp ho
+    simp only [Bool.or_eq_true, beq_iff_eq] at hm2
+    obtain ⟨a, b, c3⟩ := h.cm m hm
+    rcases hm2 with (hm2 | hm2) | hm2
+    · exact a k p v fe hm2
+    · exact b k p v fe hm2
+    · obtain ⟨e, he, hes⟩ := List.any_eq_true.mp hm2
+      exact c3 e he k p v fe (by simpa using hes)
+  · obtain ⟨pr, hpr, hs⟩ := List.any_eq_true.mp ho
+    exact h.pr pr hpr k p v fe (by simpa using hs)
+
+theorem SV_append (ps : List Proposal) (m : Proposal) (s : Sig) (h : SV ps s) : SV (ps ++ [m]) s := by
+  intro k p v fe hs
+  have := h k p v fe hs
+  rw [List.find?_append]
+  cases hf : ps.find? (·.proposer == p) with
+  | none => simp [hf] at this
+  | some pr => simpa [hf] using this
+
+theorem SV_junk (ps : List Proposal) (k : Nat) : SV ps (.junk k) := by
+  intro _ _ _ _ h; cases h
+
+theorem mem_setKey {β} (k : Nat) (v : β) (m : List (Nat × β)) (x : Nat × β) (h : x ∈ setKey k v m) :
+    x ∈ m ∨ x = (k, v) := by
+  induction m with
+  | nil => simp [setKey] at h; exact Or.inr h
+  | cons hd tl ih =>
+    obtain ⟨k', v'⟩ := hd
+    unfold setKey at h
+    by_cases hk : k' = k
+    · simp only [hk, if_true, List.mem_cons] at h
+      rcases h with h | h
+      · exact Or.inr h
+      · exact Or.inl (List.mem_cons_of_mem _ h)
+    · simp only [hk, if_false, List.mem_cons] at h
+      rcases h with h | h
+      · exact Or.inl (by simp [h])
+      · rcases ih h with h | h
+        · exact Or.inl (List.mem_cons_of_mem _ h)
+        · exact Or.inr h
+
+/-- every signature entry after `addBlockEndorsementLocked` is the new one or was there before -/
+theorem sigs_addEndorse (es : List (Nat × List ESig)) (k : Nat) (e : ESig) (cm : Bool) :
+    ∀ x ∈ addEndorse es k e cm, ∀ e' ∈ x.2, e' = e ∨ ∃ y ∈ es, e' ∈ y.2 := by
+  intro x hx e' he'
+  have key : ∀ sigs : List ESig, (∀ e'' ∈ sigs, e'' = e ∨ ∃ y ∈ es, e'' ∈ y.2) → x ∈ setKey k sigs es →
+      e' = e ∨ ∃ y ∈ es, e' ∈ y.2 := by
+    intro sigs hs hm
+    rcases mem_setKey k sigs es x hm with h | h
+    · exact Or.inr ⟨x, h, he'⟩
+    · subst h; exact hs e' he'
+  have single : ∀ e'' ∈ [e], e'' = e ∨ ∃ y ∈ es, e'' ∈ y.2 := fun e'' h => Or.inl (by simpa using h)
+  unfold addEndorse at hx
+  cases hl : lookup k es with
+  | none => simp only [hl] at hx; exact key _ single hx
+  | some sigs =>
+    have app : ∀ e'' ∈ sigs ++ [e], e'' = e ∨ ∃ y ∈ es, e'' ∈ y.2 := by
+      intro e'' h
+      rcases List.mem_append.mp h with h | h
+      · exact Or.inr ⟨(k, sigs), lookup_mem _ _ _ hl, h⟩
+      · exact Or.inl (by simpa using h)
+    cases cm with
+    | true => simp only [hl] at hx; exact key _ single hx
+    | false =>
+      simp only [hl] at hx
+      split at hx
+      · exact Or.inr ⟨x, hx, he'⟩
+      · split at hx
+        · exact key _ app hx
+        · split at hx
+          · exact Or.inr ⟨x, hx, he'⟩
+          · exact key _ app hx
+
+theorem sigs_foldl_addEndorse (l : List (Nat × Sig)) (p : Nat) (fe : Bool) (es : List (Nat × List ESig)) :
+    ∀ x ∈ l.foldl (fun es (e : Nat × Sig) => addEndorse es e.1 ⟨p, fe, e.2⟩ false) es, ∀ e' ∈ x.2,
+      (∃ en ∈ l, e' = ⟨p, fe, en.2⟩) ∨ ∃ y ∈ es, e' ∈ y.2 := by
+  induction l generalizing es with
+  | nil => intro x hx e' he'; exact Or.inr ⟨x, hx, he'⟩
+  | cons a r ih =>
+    intro x hx e' he'
+    rcases ih _ x hx e' he' with ⟨en, hen, h⟩ | ⟨y, hy, h⟩
+    · exact Or.inl ⟨en, by simp [hen], h⟩
+    · rcases sigs_addEndorse es a.1 _ false y hy e' h with h2 | h2
+      · exact Or.inl ⟨a, by simp, h2⟩
+      · exact Or.inr h2
+
+theorem knownHash_SV (c : Cand) (p : Nat) (fe : Bool) (h : Hash) (k : Nat) (hk : knownHash c p fe h = true) :
+    SV c.proposals (.valid k h) := by
+  unfold knownHash at hk
+  cases hf : c.proposals.find? (·.proposer == p) with
+  | none => simp [hf] at hk
+  | some pr =>
+    simp only [hf, beq_iff_eq] at hk
+    subst hk
+    intro k' p' v' fe' hs
+    simp only [blockHash, Sig.valid.injEq, Hash.block.injEq] at hs
+    obtain ⟨_, rfl, rfl, _⟩ := hs
+    simp [hf]
+
+theorem vbi_empty : VBI {} := ⟨fun _ h => by simp at h, fun _ h => by simp at h, fun _ h => by simp at h⟩
+
+theorem vbi_deliver_sound (N : Nat) (c : Cand) (d : Delivery) (vb : VBI c) : VBI (deliver .sound N c d).2 := by
+  cases d with
+  | proposal m =>
+    unfold deliver
+    by_cases hv : verifyProposal N m = true
+    · simp only [hv, if_true]
+      unfold newBlockProposal
+      cases hf : c.proposals.find? (·.proposer == m.proposer) with
+      | some p0 => simp only; split <;> exact vb
+      | none =>
+        simp only
+        unfold verifyProposal at hv
+        simp only [Bool.and_eq_true, decide_eq_true_eq, beq_iff_eq] at hv
+        have hnew : SV (c.proposals ++ [m]) m.sig := by
+          rw [hv.1.2]
+          intro k p v fe hs
+          simp only [blockHash, Sig.valid.injEq, Hash.block.injEq] at hs
+          obtain ⟨_, rfl, rfl, _⟩ := hs
+          rw [List.find?_append, hf]
+          simp
+        refine ⟨?_, ?_, ?_⟩
+        · intro x hx e he
+          rcases sigs_addEndorse _ _ _ _ x hx e he with h | ⟨y, hy, h⟩
+          · subst h; exact hnew
+          · exact SV_append _ _ _ (vb.es y hy e h)
+        · intro x hx
+          obtain ⟨a, b, c3⟩ := vb.cm x hx
+          exact ⟨SV_append _ _ _ a, SV_append _ _ _ b, fun e he => SV_append _ _ _ (c3 e he)⟩
+        · intro pr hpr
+          simp only [List.mem_append, List.mem_singleton] at hpr
+          rcases hpr with hpr | rfl
+          · exact SV_append _ _ _ (vb.pr pr hpr)
+          · exact hnew
+    · simp only [hv]; exact vb
+  | endorse s m =>
+    unfold deliver
+    by_cases hv : verifyEndorse N s m = true
+    · simp only [hv, if_true]
+      by_cases hs : soundEndorse c s m = true
+      · simp only [hs, if_true]
+        unfold verifyEndorse at hv
+        unfold soundEndorse at hs
+        simp only [Bool.and_eq_true, decide_eq_true_eq, beq_iff_eq] at hv hs
+        unfold newBlockEndorsement
+        refine ⟨?_, vb.cm, vb.pr⟩
+        intro x hx e he
+        rcases sigs_addEndorse _ _ _ _ x hx e he with h | ⟨y, hy, h⟩
+        · subst h
+          show SV c.proposals m.sig
+          rw [hv.2]; exact knownHash_SV c _ _ _ _ hs.1.2
+        · exact vb.es y hy e h
+      · simp only [hs]; exact vb
+    · simp only [hv]; exact vb
+  | commit s m =>
+    unfold deliver
+    by_cases hv : verifyCommit N s m = true
+    · simp only [hv, if_true]
+      cases hs : soundCommit N c s m with
+      | none => simp only; exact vb
+      | some m' =>
+        simp only
+        unfold verifyCommit at hv
+        unfold soundCommit at hs
+        simp only [Bool.and_eq_true, decide_eq_true_eq, beq_iff_eq] at hv
+        split at hs
+        · rename_i hcond
+          simp only [Bool.and_eq_true, beq_iff_eq] at hcond
+          obtain ⟨⟨_, h2⟩, _⟩ := hcond
+          simp only [Option.some.injEq] at hs
+          subst hs
+          have hsig : SV c.proposals m.sig := by rw [hv.2]; exact knownHash_SV c _ _ _ _ h2
+          have hend : ∀ e ∈ m.endorsers.filter (fun e => decide (e.1 < N) && e.2 == .valid e.1 m.hash), SV c.proposals e.2 := by
+            intro e he
+            simp only [List.mem_filter, Bool.and_eq_true, decide_eq_true_eq, beq_iff_eq] at he
+            rw [he.2.2]; exact knownHash_SV c _ _ _ _ h2
+          have hpsig : SV c.proposals (if m.psig == .valid m.proposer m.hash then m.psig else .junk 0) := by
+            split
+            · rename_i hp; simp only [beq_iff_eq] at hp; rw [hp]; exact knownHash_SV c _ _ _ _ h2
+            · exact SV_junk _ _
+          unfold newBlockCommitment
+          simp only
+          split
+          · split <;> exact vb
+          · simp only
+            refine ⟨?_, ?_, vb.pr⟩
+            · intro x hx e he
+              rcases sigs_addEndorse _ _ _ _ x hx e he with h | ⟨y, hy, h⟩
+              · subst h; exact hsig
+              · rcases sigs_foldl_addEndorse _ _ _ _ y hy e h with ⟨en, hen, h3⟩ | ⟨z, hz, h3⟩
+                · subst h3; exact hend en hen
+                · exact vb.es z hz e h3
+            · intro x hx
+              simp only [List.mem_append, List.mem_singleton] at hx
+              rcases hx with hx | rfl
+              · exact vb.cm x hx
+              · exact ⟨hsig, hpsig, hend⟩
+        · simp at hs
+    · simp only [hv]; exact vb
+
+theorem vbi_run_sound (N : Nat) (c : Cand) (hist : List Delivery) (vb : VBI c) : VBI (run .sound N c hist) := by
+  induction hist generalizing c with
+  | nil => exact vb
+  | cons d r ih => exact ih _ (vbi_deliver_sound N c d vb)
+
 end OntVerif.Proofs.BlockPool
